@@ -175,7 +175,7 @@ func vxH_C19_alloc() {
 }
 
 // vxH_C19_persistLoad: persistBasicSegment at a file position around page
-// boundaries followed by loadBasicSegment yields page-aligned,
+// boundaries (behind the header page) followed by loadBasicSegment yields page-aligned,
 // non-overlapping regions and the same operation, key and value for every
 // entry - including the empty key, empty values and bytes 0x00 / 0xFF /
 // magic look-alikes (all bytes are symbolic).
@@ -190,11 +190,14 @@ func vxH_C19_persistLoad() {
 	fs := vxNewFS()
 	f, err := fs.openFile(fs.dir+"/data-0000000000000001.moss", 0x42 /* O_RDWR|O_CREATE */, 0600)
 	vxAssert("create-ok", err == nil)
-	positions := []int64{0, 1, 4095, 4096, 4097, 8191}
+	// pos is what the only caller, (*segment).Persist, passes: the current
+	// size of a data file, which begins with the page-sized header
+	// (persistHeader), so pos >= StorePageSize. Positions inside page 0 are
+	// not reachable and are outside the claim (there the empty-buf segment
+	// fails doLoadSegments' file-size test).
+	positions := []int64{4096, 4097, 8191, 8192, 8193, 12287}
 	pos := positions[vxChoose(len(positions))]
-	if pos > 0 {
-		f.WriteAt(make([]byte, pos), 0)
-	}
+	f.WriteAt(make([]byte, pos), 0)
 	sloc, perr := persistBasicSegment(seg, f, pos, nil)
 	vxAssert("persist-ok", perr == nil)
 	vxAssert("kvs-page-aligned", sloc.KvsOffset%4096 == 0 && int64(sloc.KvsOffset) >= pos)
